@@ -422,7 +422,12 @@ func decodeKey(seq ansi.Sequence) Key {
 	// patches to both terminals)
 	nmods := key.Modifiers &^ (ModCapsLock | ModNumLock)
 	if key.Text == "" && nmods == ModShift && unicode.IsPrint(key.Keycode) {
-		key.Text = string(unicode.ToUpper(key.Keycode))
+		if key.ShiftedCode != 0 {
+			// the terminal told us what shift makes of this key
+			key.Text = string(key.ShiftedCode)
+		} else {
+			key.Text = string(unicode.ToUpper(key.Keycode))
+		}
 	}
 	return key
 }
